@@ -467,7 +467,7 @@ func sigExpEarlyOverflow(m *engine.Mismatch) bool {
 
 // F-C13-014: the amd64 assembly math.Log reads a subnormal m * 2^-1074 as the
 // normal number (1 + m/2^52) * 2^-1023 (exponent field 0 taken literally, implicit
-// bit added): the observed value is the logarithm of that number.
+// bit added); Math.pow(subnormal, fractional y) = Exp(y * that logarithm).
 func sigLogSubnormal(m *engine.Mismatch) bool {
 	x, ok := auxFloat(m, "x0")
 	if !ok || m.Aux["family"] != "edges" || !(x > 0 && x < minNrm) || !strings.HasPrefix(m.Observed, "d:") {
@@ -479,13 +479,13 @@ func sigLogSubnormal(m *engine.Mismatch) bool {
 	if err != nil {
 		return false
 	}
-	switch m.Aux["fn"] {
-	case "log":
-		return mathspec.UlpDiff(altLog, obs) <= 4
-	case "pow":
-		// math.Pow computes x^y for a fractional 0 < y <= 0.5 as Exp(y * Log(x)): the same logarithm
-		y, ok := auxFloat(m, "x1")
-		return ok && y > 0 && y <= 0.5 && mathspec.UlpDiff(mathspec.RefExp(y*altLog), obs) <= 8+uint64(math.Abs(y*altLog))
+	// Math.log itself was repaired in otto (b1ed913: subnormal arguments are scaled into the normal
+	// range before math.Log); the signature no longer accepts fn = "log", so a regression of that
+	// guard is a VIOLATION. Only the Math.pow form, which calls math.Pow directly, stays open.
+	if m.Aux["fn"] != "pow" {
+		return false
 	}
-	return false
+	// math.Pow computes x^y for a fractional 0 < y <= 0.5 as Exp(y * Log(x)): the same logarithm
+	y, ok := auxFloat(m, "x1")
+	return ok && y > 0 && y <= 0.5 && mathspec.UlpDiff(mathspec.RefExp(y*altLog), obs) <= 8+uint64(math.Abs(y*altLog))
 }
